@@ -67,6 +67,9 @@ OPS_BY_PROP = {
             'set_phases', 'link_with', 'unlink', 'proxy', 'flow_proxy', 'copy_like', 'copy', 'restart',
             'reset_cache', 'view', 'scale', 'mix_from', 'bad_units', 'churn', 'reduce_phases', 'empty',
             'split_to', 'check_views', 'check_views'],
+    'C02': ['set_energy'] * 5 + ['mix_energy'] * 5 + ['separate_energy'] * 2 + ['set_T', 'set_T', 'set_P', 'set_flow',
+            'set_flow', 'scale', 'read_prop', 'read_prop', 'proxy', 'copy', 'restart', 'link_with', 'unlink',
+            'flow_proxy', 'reset_cache', 'set_phase'],
     'C12': ['set_phases'] * 4 + ['reduce_phases', 'as_stream', 'touch_solver', 'touch_solver', 'view_write',
             'view_write', 'view_write', 'save_data', 'restore_data', 'restore_data', 'set_flow', 'set_flow',
             'set_T', 'set_P', 'restart', 'view', 'copy', 'mix_from', 'scale', 'empty', 'copy_like', 'link_with',
@@ -94,6 +97,7 @@ def make_cfg(rng, prop, tier):
         weights[o] = w
     n_streams = rng.randint(3, 7)
     streams = []
+    energy = prop == 'C02'
     for i in range(n_streams):
         pkg = rng.choice(['A', 'A', 'A', 'B', 'C'])
         kind = rng.choice(['single', 'single', 'multi'])
@@ -101,11 +105,13 @@ def make_cfg(rng, prop, tier):
                 'T': rng.choice(T_ALPHABET), 'P': rng.choice(P_ALPHABET)}
         n = len(universe.PACKAGES[pkg][0])
         if kind == 'single':
-            spec['phase'] = rng.choice(['l', 'l', 'g', 's', 'L', 'S'])
+            spec['phase'] = rng.choice(['l', 'l', 'g']) if energy else rng.choice(['l', 'l', 'g', 's', 'L', 'S'])
             spec['flows'] = [rng.choice(FLOW_ALPHABET) for _ in range(n)]
+            if energy and not any(spec['flows']):
+                spec['flows'][0] = 1.0
         else:
             k = rng.randint(1, 4)
-            phases = rng.sample(PHASES, k)
+            phases = ['g', 'l'] if energy else rng.sample(PHASES, k)
             spec['phases'] = phases
             spec['flows'] = {p: [rng.choice(FLOW_ALPHABET + [0.0] * 6) for _ in range(n)] for p in phases}
         streams.append(spec)
@@ -124,10 +130,12 @@ TASKS_BY_PROP = {
     'C13': ['link_cycle', 'revisit'],
     'C01': ['link_cycle'],
     'C12': ['link_cycle', 'revisit'],
+    'C02': ['revisit'],
     'C10': ['revisit'],
 }
 
 CORE_OPS = {
+    'C02': {'set_energy', 'mix_energy', 'separate_energy'},
     'C12': {'set_phases', 'reduce_phases', 'as_stream', 'touch_solver', 'view_write', 'restore_data'},
     'C13': {'copy', 'copy_like', 'proxy', 'flow_proxy', 'link_with', 'unlink', 'restart', 'pickle_obj'},
     'C01': set(MIX_OPS),
@@ -767,6 +775,26 @@ class StreamWorld(BaseWorld):
                 'chem': r.choice(sorted(universe.CHEMICAL_SPECS)), 'price': r.choice([0.0, 0.5, 3.25]),
                 'cf': r.choice([None, {'GWP': 1.5}, {'GWP': 2.0, 'FEC': 0.25}]), 'multi': r.random() < 0.5}
 
+    def gen_set_energy(self, r):
+        nm = self.names(r, nonempty=True)
+        if not nm:
+            return None
+        return {'stream': nm[0], 'what': r.choice(['H', 'H', 'h', 'S']), 'current': r.random() < 0.25,
+                'T_target': r.choice([265.0, 290.0, 305.5, 330.0, 355.25, 380.0, 410.0, 440.0, 470.0])}
+
+    def gen_mix_energy(self, r):
+        recv = self.names(r)[0]
+        k = r.choice([1, 2, 2, 2, 3, 4])
+        pool = sorted(self.streams)
+        inlets = [r.choice(pool) for _ in range(k)]
+        return {'stream': recv, 'inlets': inlets, 'q': r.choice([0.0, 0.0, 5.0, -5.0, 15.0, -12.5])}
+
+    def gen_separate_energy(self, r):
+        nm = self.names(r, 2)
+        if not nm:
+            return None
+        return {'stream': nm[0], 'other': nm[1]}
+
     def gen_restart(self, r):
         return {'stream': self.names(r)[0]}
 
@@ -1053,6 +1081,39 @@ class StreamWorld(BaseWorld):
 
     def pre_copy_thermal_condition(self, ev):
         return ev['stream'] != ev['other']
+
+    def energy_ok(self, name):
+        """inside C02's domain: liquid/gas phases only, T 250-500 K, P 1e4-1e7 Pa, no negative flow"""
+        p = self.project(name)
+        if not all(ph in ('l', 'g') for ph in p.phases):
+            return False
+        if not (250.0 <= p.T <= 500.0 and 1e4 <= p.P <= 1e7):
+            return False
+        return all((row >= 0).all() for row in p.rows.values())
+
+    def pre_set_energy(self, ev):
+        n = ev['stream']
+        return self.energy_ok(n) and not self.streams[n].isempty()
+
+    def pre_mix_energy(self, ev):
+        if not self.pre_mix_from({'stream': ev['stream'], 'inlets': ev['inlets']}):
+            return False
+        names = set(ev['inlets']) | {ev['stream']}
+        if not all(self.energy_ok(n) for n in names):
+            return False
+        return any(not self.streams[i].isempty() for i in ev['inlets'])
+
+    def pre_separate_energy(self, ev):
+        if not self.pre_separate_out(ev):
+            return False
+        a, b = ev['stream'], ev['other']
+        if self.may_share(a, b):
+            return False
+        if not (self.energy_ok(a) and self.energy_ok(b)):
+            return False
+        pa, pb = self.project(a), self.project(b)
+        rest = pa.total() - self.mapped(b, a, pb.total())
+        return bool(rest.sum() > 1e-6)
 
     def pre_unlink(self, ev):
         return not self.is_view_locked(ev['stream'])
@@ -2262,6 +2323,181 @@ class StreamWorld(BaseWorld):
                 self.fail('pickle-roundtrip', 'unpickled stream differs in flows/phases/T/P')
         return 'ok'
 
+    # ---- energy balance (C02) ----
+    def H_indep(self, name, proj=None, T=None):
+        """enthalpy flow through the independent path: mixture model on dense rows, never the stream's memo"""
+        proj = proj or self.project(name)
+        mix = universe.package(proj.pkg).thermo.mixture
+        T = proj.T if T is None else T
+        with faults.disarmed():
+            return float(sum(mix.H(ph, row, T, proj.P) for ph, row in proj.rows.items() if row.any()))
+
+    def S_indep(self, name, proj=None, T=None):
+        proj = proj or self.project(name)
+        mix = universe.package(proj.pkg).thermo.mixture
+        T = proj.T if T is None else T
+        with faults.disarmed():
+            return float(sum(mix.S(ph, row, T, proj.P) for ph, row in proj.rows.items() if row.any()))
+
+    def C_indep(self, name, proj=None):
+        proj = proj or self.project(name)
+        mix = universe.package(proj.pkg).thermo.mixture
+        with faults.disarmed():
+            return float(sum(mix.Cn(ph, row, proj.T, proj.P) for ph, row in proj.rows.items() if row.any()))
+
+    # Calibration (DESIGN 9; tools/calibrate_c02.py, 600 fault-free FRESH-object cases on the unchanged tree,
+    # residual in units of the solver resolution C*T_tol with T_tol = 1e-6 K):
+    #   H, h assignment, mix, separate_out: max < 1e-3 units   -> bound 100 units (floor)
+    #   S assignment:                        max 2.46e3 units   -> bound 2.5e4 units (10 x max)
+    K_H = 100.0
+    K_S = 2.5e4
+
+    def H_bound(self, C, H):
+        return self.K_H * abs(C) * 1e-6 + 1e-9 * abs(H) + 1e-9
+
+    def do_set_energy(self, ev):
+        n = ev['stream']
+        s = self.streams[n]
+        what = ev['what']
+        before = self.project(n)
+        total = float(sum(r.sum() for r in before.rows.values()))
+        if ev['current']:
+            with faults.disarmed():
+                target = float(getattr(s, what))
+            T_expect = before.T
+        else:
+            T_expect = ev['T_target']
+            if what == 'S':
+                target = self.S_indep(n, before, T=T_expect)
+            else:
+                target = self.H_indep(n, before, T=T_expect)
+                if what == 'h':
+                    target = target / total
+        r = self.call(ev, lambda: setattr(s, what, target))
+        self.touch(n)
+        if r[0] == 'exc':
+            return self.unexpected(ev, r, 'set_energy')
+        if self.prop != 'C02':
+            return 'ok'
+        after = self.project(n)
+        flipped = tuple(after.phases) != tuple(before.phases)
+        if flipped and not ev.get('fault') and what == 'S' and 'C02-S-setter-recovery' in self.regions:
+            # listed known finding, identified by its call site: the except-branch of the S setter
+            # (the only place that changes the phase) was taken without any injected fault
+            self.stats['region:C02-S-setter-recovery'] += 1
+            return 'known-finding'
+        if ev['current'] and not ev.get('fault') and (flipped or not (250.0 <= after.T <= 500.0)):
+            self.fail('same-value-moved-T', f'{n}.{what} assigned its current value moved T from {before.T} to {after.T} '
+                      f'and the phase from {before.phases} to {after.phases}',
+                      {'event': ev, 'before': before.to_json()})
+        if not (250.0 <= after.T <= 500.0) or not all(ph in ('l', 'g') for ph in after.phases):
+            self.stats['left_domain'] += 1
+            return 'left-domain'
+        if not close(after.total(), before.total()):
+            self.fail('energy-changed-flows', f'{n}.{what} = ... changed the flows')
+        C = self.C_indep(n, after)
+        if what == 'S':
+            back_i = self.S_indep(n, after)
+            bound = self.K_S * abs(C) / after.T * 1e-6 + 1e-9 * abs(target) + 1e-9
+        else:
+            back_i = self.H_indep(n, after)
+            if what == 'h':
+                back_i /= total
+                bound = self.H_bound(C, target * total) / total
+            else:
+                bound = self.H_bound(C, target)
+        with faults.disarmed():
+            back_p = float(getattr(s, what))
+        self.note_calibration('set_' + what, abs(back_i - target), (abs(C) * 1e-6 / (after.T if what == 'S' else 1.0)
+                                                                    / (total if what == 'h' else 1.0)))
+        if abs(back_i - target) > bound or abs(back_p - target) > bound:
+            self.fail('readback-' + what, f'{n}.{what} = {target!r}: reading it back gives {back_p!r} through the stream and '
+                      f'{back_i!r} through the mixture model (bound {bound:.3g}); T {before.T} -> {after.T}, phases '
+                      f'{before.phases} -> {after.phases}', {'event': ev, 'before': before.to_json(), 'after': after.to_json()})
+        # "assigning the value it already has leaves the temperature unchanged": H, h exact to 1e-5 K
+        # (calibration max 4.6e-13 K); S limited by the noise of the entropy models' numerical integrals
+        # (thermo library): calibration max 2.5e-3 K over 7400 fresh cases outside the listed region -> 10x
+        dT_same = 0.03 if what == 'S' else 1e-5
+        if (ev['current'] and not ev.get('fault') and tuple(after.phases) == tuple(before.phases)
+                and abs(after.T - before.T) > dT_same):
+            self.fail('same-value-moved-T', f'{n}.{what} assigned its current value moved T from {before.T} to {after.T}',
+                      {'event': ev})
+        return ['ok', fl(after.T)]
+
+    def note_calibration(self, key, resid, unit):
+        if unit > 0:
+            k = 'cal:' + key
+            v = resid / unit
+            # keep the maximum in stats as an integer number of 1e-3 solver-resolution units
+            self.stats[k] = max(self.stats.get(k, 0), int(v * 1000))
+
+    def do_mix_energy(self, ev):
+        recv = ev['stream']
+        s = self.streams[recv]
+        inlets = ev['inlets']
+        snaps = {n: self.project(n) for n in set(inlets)}
+        ne = [n for n in inlets if snaps[n].total().any()]
+        H_in = sum(self.H_indep(n, snaps[n]) for n in ne)
+        C_in = sum(abs(self.C_indep(n, snaps[n])) for n in ne)
+        Q = ev['q'] * C_in
+        P_min = min(snaps[n].P for n in ne)
+        objs = [self.streams[n] for n in inlets]
+        r = self.call(ev, lambda: s.mix_from(objs, energy_balance=True, Q=Q))
+        self.touch(recv, *inlets)
+        if r[0] == 'exc':
+            return self.unexpected(ev, r, 'mix_energy')
+        if self.prop != 'C02':
+            return 'ok'
+        after = self.project(recv)
+        if not (250.0 <= after.T <= 500.0) or not all(ph in ('l', 'g') for ph in after.phases):
+            self.stats['left_domain'] += 1
+            return 'left-domain'
+        want = np.zeros(self.pk(recv).n)
+        for n in inlets:
+            want = want + self.mapped(n, recv, snaps[n].total())
+        if not close(after.total(), want):
+            self.stats['mix_energy_material_mismatch'] += 1
+            return 'material-mismatch'      # C01's subject; the energy clause is not judged on other material
+        H_out = self.H_indep(recv, after)
+        C = self.C_indep(recv, after)
+        bound = self.H_bound(C, H_in + Q)
+        self.note_calibration('mix', abs(H_out - (H_in + Q)), abs(C) * 1e-6)
+        if abs(H_out - (H_in + Q)) > bound:
+            self.fail('mix-enthalpy', f'{recv}.mix_from({inlets}, Q={Q!r}): enthalpy flow after is {H_out!r}, inlets + Q '
+                      f'give {H_in + Q!r} (difference {H_out - H_in - Q:.6g} kJ/hr, bound {bound:.3g}); T={after.T}',
+                      {'event': ev, 'inlets': {n: snaps[n].to_json() for n in snaps}, 'after': after.to_json()})
+        if len(ne) >= 1 and after.P != P_min and len(ne) > 1:
+            self.fail('mix-pressure', f'{recv}.mix_from({inlets}): P = {after.P}, lowest inlet pressure is {P_min}',
+                      {'event': ev})
+        return ['ok', fl(after.T)]
+
+    def do_separate_energy(self, ev):
+        a, b = ev['stream'], ev['other']
+        sa, sb = self.streams[a], self.streams[b]
+        pa, pb = self.project(a), self.project(b)
+        Ha, Hb = self.H_indep(a, pa), self.H_indep(b, pb)
+        r = self.call(ev, lambda: sa.separate_out(sb, energy_balance=True))
+        self.touch(a, b)
+        if r[0] == 'exc':
+            return self.unexpected(ev, r, 'separate_energy')
+        if self.prop != 'C02':
+            return 'ok'
+        after = self.project(a)
+        if not (250.0 <= after.T <= 500.0) or not all(ph in ('l', 'g') for ph in after.phases):
+            self.stats['left_domain'] += 1
+            return 'left-domain'
+        if not close(after.total(), pa.total() - self.mapped(b, a, pb.total()), RTOL, 1e-9):
+            return 'material-mismatch'
+        H_out = self.H_indep(a, after)
+        C = self.C_indep(a, after)
+        bound = self.H_bound(C, Ha - Hb) + 1e-9 * (abs(Ha) + abs(Hb))
+        self.note_calibration('separate', abs(H_out - (Ha - Hb)), abs(C) * 1e-6)
+        if abs(H_out - (Ha - Hb)) > bound:
+            self.fail('separate-enthalpy', f'{a}.separate_out({b}): enthalpy flow after is {H_out!r}, difference of the '
+                      f'enthalpies is {Ha - Hb!r}', {'event': ev, 'a': pa.to_json(), 'b': pb.to_json(),
+                                                     'after': after.to_json()})
+        return ['ok', fl(after.T)]
+
     def do_restart(self, ev):
         """F4: only pickled state survives."""
         a = ev['stream']
@@ -2585,8 +2821,9 @@ def restart_copy(obj):
     return _Unpickler(buf).load()
 
 
-FAULTABLE = {'read_prop', 'mix_from', 'set_total', 'read_total', 'set_flow', 'read_flow', 'sum', 'separate_out'}
+FAULTABLE = {'set_energy', 'mix_energy', 'separate_energy', 'read_prop', 'mix_from', 'set_total', 'read_total', 'set_flow', 'read_flow', 'sum', 'separate_out'}
 FAULT_SITES = {
+    'set_energy': ['H', 'S', 'Cn'], 'mix_energy': ['H', 'Cn'], 'separate_energy': ['H', 'Cn'],
     'read_prop': ['H', 'S', 'Cn', 'V', 'mu', 'kappa'],
     'mix_from': ['H', 'Cn'], 'sum': ['H', 'Cn'], 'separate_out': ['H', 'Cn'],
     'set_total': ['V'], 'read_total': ['V'], 'set_flow': ['V'], 'read_flow': ['V'],
